@@ -3313,11 +3313,16 @@ class Any(OctetString):
             return self._tagMap
 
         except AttributeError:
-            self._tagMap = tagmap.TagMap(
-                {self.tagSet: self},
-                {eoo.endOfOctets.tagSet: eoo.endOfOctets},
-                self
-            )
+            if self.tagSet:
+                # a tagged ANY is identified by its own tag(s) only
+                self._tagMap = tagmap.TagMap({self.tagSet: self})
+
+            else:
+                self._tagMap = tagmap.TagMap(
+                    {self.tagSet: self},
+                    {eoo.endOfOctets.tagSet: eoo.endOfOctets},
+                    self
+                )
 
             return self._tagMap
 
